@@ -214,10 +214,23 @@ def judge(rep, st, col, clean, o, label, plan_desc):
     kinds = '+'.join(sorted(sites)) or 'none'
     mech = mechanism(sites)
 
+    stale_final = any(s_.startswith('stale') and '@find:dataset:final-read' in s_ for s_ in sites)
+    pair_rm = any(s_.startswith('fnf@rm:') for s_ in sites) and \
+        any(s_.startswith('lie@exists:') and s_.endswith(':rm_retry') for s_ in sites)
+
     def sig(symptom):
-        # one signature per mechanism for the two fault kinds that are known to defeat the
-        # retry logic; every other failure keeps its own symptom:site signature
-        return mech if mech else f'{symptom}:{kinds}'
+        # recorded mechanisms get one signature each; every other failure keeps its own
+        # symptom:site signature and is an alarm
+        if mech:
+            return mech
+        if symptom.startswith('returned-frame') and tree_same and stale_final:
+            # only the lazily built returned frame is affected; the dataset on disk is right
+            return 'stale-final-listing'
+        if pair_rm and len(o.fired) >= 2:
+            # two faults inside one rm_retry attempt: rm raises FileNotFoundError (taken for
+            # "already gone") and the existence re-check lies (C19_lie_pair_refuted)
+            return 'fnf-rm+lying-exists'
+        return f'{symptom}:{kinds}'
     in_final = any(f[0] - 1 >= clean['final_start'] for f in o.fired)
     tree_same = norm_tree(tree) == clean['norm']
     # ---- the property itself
@@ -364,7 +377,7 @@ def run_setup(rep, st, col, tier):
     # ---- faults that persist over r consecutive attempts of the same call (r <= K: within the
     #      budget when the call is retried; r = K, K+1: the budget is exhausted)
     positions = list(range(1, L + 1))
-    sample = rng.sample(positions, min(len(positions), 8 if tier == 'quick' else 40))
+    sample = rng.sample(positions, min(len(positions), 8 if tier == 'quick' else 25))
     for pos in sample:
         op = o.trace[pos - 1][0]
         kinds = [k for k in ('oserr', 'after', 'partial', 'lie', 'stale') if applicable(k, op)]
@@ -372,7 +385,7 @@ def run_setup(rep, st, col, tier):
         for r in (2, st.K, st.K + 1) if tier != 'quick' else (rng.choice([2, st.K - 1]), st.K):
             go({pos: (kind, r)}, f'repeat{r}')
     # ---- pairs
-    for _ in range(20 if tier == 'quick' else 300):
+    for _ in range(20 if tier == 'quick' else 120):
         p1, p2 = sorted(rng.sample(positions, 2))
         plan = {}
         for p in (p1, p2):
